@@ -16,6 +16,8 @@ REVIEWED = {
         'offset + size of every descriptor is validated not to overflow when the archive is opened (try_init)',
     'R-UNTRUSTED|bitar::chunk_offset|Overflow(Add)|self.offset,self.size,->tmp':
         'offset + size of every descriptor is validated not to overflow when the archive is opened (try_init)',
+    'R-UNTRUSTED|bitar::archive|Overflow(Add)|self.archive_offset,self.archive_size,->tmp':
+        'offset + size of every descriptor is validated not to overflow when the archive is opened (try_init)',
     'R-UNTRUSTED|bitar::archive_reader::http_reader|Overflow(Sub)|end(index(self.#Vec)),index(self.#Vec).offset,->tmp':
         'last_adjacent is at or after `next` in an adjacent run, so its end is >= next.offset',
     'R-UNTRUSTED|bitar::archive_reader::http_reader|Overflow(Sub)|self.#usize,1,->tmp':
